@@ -49,7 +49,7 @@ func (c16) Describe() CheckInfo {
 		},
 		RealCode:       []string{"gopatch main()/runMain/mainCmd.Run, findFiles/findGoFiles, loader, internal/*, all dependencies"},
 		Stubs:          []string{"package os (simulated filesystem with byte-granular write faults and kill), path/filepath walk, io/ioutil"},
-		RequiredProbes: []string{"write-fault-after-truncate", "kill-between-open-and-first-byte", "kill-mid-write", "write-fault-mid-write", "open-fail-target", "open-fail-patch", "read-fail", "walk-fail", "unparseable-target", "misfit-target", "rewrite-error-target", "missing-path", "multi-file-fault-on-non-first", "fault-pair", "sticky-write-fault", "restart-second-run", "restart-with-leftover-temporary", "target-grows-between-walk-and-read"},
+		RequiredProbes: []string{"write-fault-after-truncate", "kill-between-open-and-first-byte", "kill-mid-write", "write-fault-mid-write", "open-fail-target", "open-fail-patch", "read-fail", "walk-fail", "unparseable-target", "misfit-target", "rewrite-error-target", "missing-path", "multi-file-fault-on-non-first", "fault-pair", "sticky-write-fault", "restart-second-run", "restart-with-leftover-temporary", "target-grows-between-walk-and-read", "path-with-shell-metacharacters", "patch-larger-than-a-megabyte"},
 	}
 }
 
